@@ -50,7 +50,7 @@ static struct evhttp *http;
 static struct evrpc_base *rbase;
 static struct evrpc_pool *pool;
 static struct evhttp_connection *rawcon;
-static int port, hooks_on, rawh, rawcode, tearing, deadfd = -1;
+static int port, hooks_on, rawh, rawcode, tearing, deadfd = -1, setup_failed;
 static FILE *out;
 static char donelog[8192];
 static size_t donelen;
@@ -268,9 +268,13 @@ static int exec_op(jval *op, jval *cfg)
 		socklen_t sl = sizeof sin;
 		struct evhttp_connection *evcon;
 		int cport;
+		int tries;
 		http = evhttp_new(base);
-		bs = evhttp_bind_socket_with_handle(http, "127.0.0.1", 0);
-		if (!bs) return -1;
+		/* port 0 + SO_REUSEADDR (set by evhttp) can hand the same port to two processes that have not called
+		 * listen() yet; the loser's listen() fails with EADDRINUSE: an environment race, retried here */
+		for (tries = 0, bs = NULL; !bs && tries < 50; tries++)
+			bs = evhttp_bind_socket_with_handle(http, "127.0.0.1", 0);
+		if (!bs) { setup_failed = 1; return -1; }
 		getsockname(evhttp_bound_socket_get_fd(bs), (struct sockaddr *)&sin, &sl);
 		port = ntohs(sin.sin_port);
 		rbase = evrpc_init(http);
@@ -378,7 +382,7 @@ static void run_scenario(jval *sc)
 	size_t i;
 	memset(calls, 0, sizeof calls);
 	vt_now_ns = 1000LL * 1000000000LL;
-	rawh = 0; tearing = 0; rawcon = NULL; pool = NULL; rbase = NULL; http = NULL;
+	rawh = 0; tearing = 0; rawcon = NULL; pool = NULL; rbase = NULL; http = NULL; setup_failed = 0;
 	base = event_init();   /* also the library's "current base": a pool connection must be created without a base
 	                        * (evhttp_connection_set_base asserts evcon->base == NULL) and then needs the current base */
 	fprintf(out, "{\"obs\":[");
@@ -387,6 +391,7 @@ static void run_scenario(jval *sc)
 		int r;
 		donelen = 0; donelog[0] = 0; ndone = 0;
 		r = exec_op(op, cfg);
+		if (setup_failed) break;
 		run_loop();
 		fprintf(out, "%s{\"r\":%d,\"done\":[%s],\"comp\":[", i ? "," : "", r, donelog);
 		for (k = 1; k <= nc; k++) fprintf(out, "%s%d", k > 1 ? "," : "", calls[k].comp);
@@ -396,7 +401,7 @@ static void run_scenario(jval *sc)
 		if (!strcmp(j_str(op, "a", ""), "raw")) fprintf(out, ",\"code\":%d", rawcode);
 		fprintf(out, "}");
 	}
-	fprintf(out, "]}\n");
+	fprintf(out, "]%s}\n", setup_failed ? ",\"err\":\"setup failed (bind)\"" : "");
 	/* teardown */
 	tearing = 1;
 	if (pool) {
@@ -421,7 +426,7 @@ static void run_scenario(jval *sc)
 		EVRPC_UNREGISTER(rbase, NeverReply);
 		evrpc_free(rbase);
 		evhttp_free(http);
-	}
+	} else if (http) evhttp_free(http);
 	event_base_free(base);
 	if (deadfd >= 0) { close(deadfd); deadfd = -1; }
 	for (k = 1; k <= MAXCALL; k++) {
